@@ -195,6 +195,7 @@ type DStep struct {
 	ID      uint16   `json:"id,omitempty"`
 	Size    int      `json:"size,omitempty"`
 	Bytes   int      `json:"bytes,omitempty"`
+	Dup     bool     `json:"dup,omitempty"` // pub QoS 2: the first copy already carries DUP=1
 }
 
 type DCase struct {
@@ -403,7 +404,10 @@ func runDispatch(c DCase) (res dresult) {
 				}
 			case 2:
 				o := q2[st.ID]
-				dup := o != nil
+				dup := o != nil || st.Dup
+				if o == nil && st.Dup {
+					cls["first-copy-carries-dup"] = true
+				}
 				if o == nil {
 					o = &open2{st.Topic, pl}
 					q2[st.ID] = o
@@ -518,7 +522,7 @@ func genDispatch(t *rapid.T, q2heavy bool) DCase {
 			if q2heavy && rapid.Bool().Draw(t, "force-q2") {
 				q = 2
 			}
-			c.Steps = append(c.Steps, DStep{K: "pub", Topic: rapid.SampledFrom(dTopics).Draw(t, "t"), QoS: q, ID: rapid.SampledFrom(ids).Draw(t, "id"), Size: rapid.SampledFrom([]int{6, 20, 200, 3000}).Draw(t, "size")})
+			c.Steps = append(c.Steps, DStep{K: "pub", Topic: rapid.SampledFrom(dTopics).Draw(t, "t"), QoS: q, ID: rapid.SampledFrom(ids).Draw(t, "id"), Size: rapid.SampledFrom([]int{6, 20, 200, 3000}).Draw(t, "size"), Dup: q == 2 && rapid.IntRange(0, 4).Draw(t, "firstdup") == 0})
 		case k < 18:
 			c.Steps = append(c.Steps, DStep{K: "pubrel", ID: rapid.SampledFrom(ids).Draw(t, "rid")})
 		default:
